@@ -94,6 +94,18 @@ THEOREMS = {
     "C19_model_is_source_get_test_screen_from_job_output": "the whole helper (called by the translated retrospective step): it globs for training.screen.h5 = the model's has_training / SFile s KTraining",
     "C19_model_is_source_get_theta_and_dist_chunks": "the whole helper (called by both translated steps): ValueError unless thetas and distance chunks are both present = has_thetas_dist / AFail 2",
     "C19_model_is_source_get_selected_plates": "the whole helper (called by both translated steps): the contents of the selected_plate files of the iteration, None when there are none = selected_plates",
+    "C19_model_is_source_main": "the WHOLE function main(), re-translated on every run (mode dispatch: which translated run_next_* the variable run_next holds; `while True` as recursion on explicit fuel; "
+                                "every call runs the translated function in the world; `if not should_run_again: break`): for fuel >= the number of times the loop body is started it equals the model's "
+                                "invocation for every tree, schedule, batch size - same final tree, remaining schedule, calls and end (returned / exception out of main() / observation ends)",
+    "C19_model_is_source_main_unknown_mode": "a --mode other than the two argparse admits: ValueError before any call, the world is untouched",
+    "C19_model_is_source_main_observation_window": "fuel > number of schedule entries is always sufficient (one loop iteration per entry, plus the one that finds the schedule empty)",
+    "C19_model_is_source_main_fuel_discharged": "NO fuel hypothesis on reachable trees: from any tree a crash schedule leads to, for ANY further schedule, fuel = (retrospective) steps not yet completed + 1 / "
+                                                "(prospective) what is left of the current batch suffices: main() = invocation",
+    "C19_model_is_source_main_finishes_batch_and_stops": "C19_invocation_finishes_batch_and_stops said of the translated main() with fuel = batch size: it returns normally after exactly bs - c mod bs successful launches, the rest of the schedule untouched",
+    "C19_model_is_source_main_retro_stops_iff_finished": "C19_retro_invocation_stops_iff_finished said of the translated main() with fuel = n + 1, any schedule: a normal return means all n steps complete and only successful "
+                                                         "launches before the returning call; once complete, main() makes one call, changes nothing, returns",
+    "C19_model_is_source_main_call_is_attempt": "the meaning of one call in the world (world_call: the translated function on the current tree, played against the next schedule entry) is the model's attempt, and the value "
+                                                "handed back to main() is call_returns - so call_returns is derived from the value the translated function returns",
 }
 ASSUMPTIONS = [
     "no nextflow engine is available: the three workflows are represented by harness/fake_nextflow/nextflow, whose publications follow main.nf / the "
@@ -133,8 +145,17 @@ EXPLANATION = ("Model: Model/Orchestrate.v (calls: attempt/script_run; invocatio
                "meta['n_unobserved_plates'] = the metadata value, every read of the output directory = a read of the tree AFTER the actions done so far (tree_after); effects: shutil.rmtree(job dir) = ARmTree, "
                "os.makedirs(job dir) = AMkIter then AMkPlate, run_initial_plate / run_first_batch_plate / run_first_prospective_batch_plate / run_subsequent_batch_plate = the launch of that command with those "
                "arguments, or a TypeError when one of the path arguments is None (excludes=None = no --excludes); ignored: logger.info, os.makedirs(output_dir) (creation of the output directory itself is "
-               "not modelled); extra_args / experiment_name are only handed on.  NOT translated: the four run_* command builders, dir_sort_key, get_args and main() (main's while-loop is Orchestrate.invocation; "
-               "the differential runs drive the real main()).")
+               "not modelled); extra_args / experiment_name are only handed on.  MAIN (C19_model_is_source_main*): main() is re-translated as a whole function (configuration C19_MAIN -> Generated/SrcOrchMain.v, exception monad Orchestrate.mres whose "
+               "errors carry the world main() leaves behind; translator keys added: monad['while'] - a `while True` under a non-default monad, on explicit fuel -, tail_dup_raise - the statements after an `if` one of whose "
+               "branches may raise are the tail of both branches) and proved equal to Orchestrate.invocation for sufficient fuel; the fuel hypothesis is discharged on reachable trees (n + 1 resp. batch-size "
+               "iterations).  The if/elif/else on args.mode, the assignment of run_next, the loop, the call's keyword arguments (typed: output directory, screen, extra args, batch size), the negated test and the break come from "
+               "the translation.  TRUSTED primitives of main(): get_args() = the parsed arguments (argv, extra) [get_args itself is not translated; argparse's choices = the two mode strings]; args.mode / args.batch_size = "
+               "fields of argv; the literals 'retrospective' / 'prospective' = the two mode names; the NAMES run_next_retrospective_step / run_next_prospective_step = the translated functions of that name; "
+               "os.path.abspath(args.outdir) = THE output directory of the world, os.path.abspath(args.screen) = the operator's screen of this invocation (SInput); and world_call = what a call "
+               "run_next(output_dir=, input_screen=, extra_args=, batch_size=) is in a world with crashes: the translated function is applied to the tree as it is now, its result (value + actions / exception after "
+               "some actions / named directory) is played against the next crash-schedule entry by the rule of Orchestrate.attempt (exec_result; C19_model_is_source_main_call_is_attempt proves it IS attempt), the "
+               "value reaches main() only if the call ran to its return, an empty schedule ends the observation.  "
+               "NOT translated: the four run_* command builders, dir_sort_key, get_args.")
 
 KINDS = ["training", "test", "thetas", "dist", "selected", "advanced", "meta"]
 FILES = ["training.screen.h5", "test.screen.h5", "thetas_0.h5", "distance_matrix_chunk_0.h5", "selected_plate",
